@@ -28,9 +28,11 @@ RULE = (
     "case = (interpolator class, method, order 2..12, table length order..order+40, sampling uniform/jittered, "
     "table values: polynomial of degree < order / random nodes / two-body orbit) with queries at every node, in every "
     "interval (first and last ceil(order/2) intervals over-sampled), one ulp inside the ends and outside the table; "
+    "orders and lengths are swept deterministically, everything else is drawn from the case PRNG; "
     "distinct = digest of the generated numbers; non-trivial = table longer than the order or more than one interval"
 )
-EXHAUSTIVE = ["orders 2..12 x table lengths order..order+40 are cycled deterministically (every pair in the thorough tier)"]
+EXHAUSTIVE = ["jobs 'interp' and 'dated': every (order 2..12, table length order..order+40) pair is visited (451 pairs per sweep, >= 2 sweeps "
+              "in the quick tier); abscissae, values and queries inside a pair are sampled, not enumerated"]
 ASSUMPTIONS = [
     "fractions.Fraction arithmetic on the float abscissae/ordinates is exact; float(Fraction) is correctly rounded",
     "DatedInterp's abscissa of a Date is Date._mjd (read from the library object): the polynomial tables of the dated "
@@ -244,10 +246,12 @@ def outside_points(rng, xs):
     ]
 
 
-def pick_order_length(idx, rng, tier_all=False):
+def pick_order_length(idx, rng):
+    """Deterministic sweep of the 11 x 41 grid (order 2..12) x (length order..order+40): every 451 consecutive
+    cases visit every pair once; every 4th sweep is spent on the minimal tables (length == order)."""
     k = 2 + idx % 11
     extra = (idx // 11) % 41
-    if rng.random() < 0.15:
+    if (idx // 451) % 4 == 3:
         extra = 0
     return k, k + extra
 
